@@ -24,16 +24,19 @@ Decided by symbolic interpretation of the repository source (nothing is executed
 """
 from __future__ import annotations
 
+# thorough tier: this module runs its own in-memory mutation adequacy (see _mutation_adequacy)
+OWN_MUTATION_ADEQUACY = True
+
 import ast
 import itertools
 
 from ..absint import Sym, Lin, Raised, show
 from ..consts import Folder
-from ..model import ANALYSIS, DEX, AnalysisError, Func, norm
+from ..model import ANALYSIS, DEX, AnalysisError, Func, norm, clone
 from ..spec import dalvik
 from .. import flowmodel as fm
 from ..flowmodel import CUR, LEN, OFF, BC, INS, lin, lin_eq, pp
-from ..symflow import key, mcall
+from ..symflow import key, mcall, generic_items
 
 CLASS_OF = {"return": "return", "throw": "return", "goto": "goto", "if": "if", "switch": "switch", "next": "other"}
 CLASS_TEXT = {
@@ -114,6 +117,7 @@ def check_determine_next(sink, repo, folder, dn, ops=range(256)):
                 bad = ("dn/" + cls, "%s: %s" % (cls, rsrc), "determineNext returns %s for opcode 0x%02x %s, expected the list %s"
                        % (show(r)[:80], op, name, CLASS_TEXT[cls]), rn)
                 break
+            r = generic_items(r)
             if cls == "switch":
                 b = _check_switch(p, r, op, name, rsrc, rn)
                 if b:
@@ -209,6 +213,14 @@ def check_set_childs(sink, repo, folder, bb_cls):
         sink.count("set_childs_lists")
 
 
+def _check_set_childs_some(sink, repo, folder, bb_cls):
+    sc = bb_cls.lookup("set_childs")
+    for label, vals in VALUE_LISTS[:3]:
+        for p in fm.set_childs_paths(repo, folder, bb_cls, vals, label):
+            for cat, msg in p.problems:
+                sink.check("childs/" + cat, label + cat, False, sc, cat, msg)
+
+
 QUICK_SCEN = [(0x00, 0x00), (0x00, 0x32), (0x32, 0x00), (0x32, 0x32), (0x00, 0x32, 0x00)]
 THOROUGH_SCEN = QUICK_SCEN + [(0x28, 0x00, 0x0E), (0x00, 0x00, 0x2B), (0x2B, 0x27, 0x00)]
 
@@ -273,8 +285,13 @@ def run(ctx):
                "get_ins_off(addr) returns the instruction that starts at byte addr (C40)")
     ctx.note("successors of blocks are decided as the composition determineNext -> _create_basic_block call site -> set_childs; "
              "whether BasicBlocks.get_basic_block finds the block that contains an address is part of C10's partition")
+    # positive controls (every run)
+    canary(ctx, "determineNext units", dn, lambda s: check_determine_next(s, repo, folder, dn, ops=[0x28, 0x32, 0x2B]), ["drop*2"])
+    sc = bb_cls.lookup("set_childs")
+    canary(ctx, "set_childs mirror", sc, lambda s: _check_set_childs_some(s, repo, folder, bb_cls), ["swap-tuple"], pick=2)
+    ctx.floor("positive_controls", 2)
     if ctx.tier == "thorough":
-        _mutation_adequacy(ctx, repo, folder, dx, ma, dn, bb_cls)
+        _mutation_adequacy(ctx, repo, folder, dx, ma, dn, bb_cls, ma_cls, de, basic)
 
 
 # ---------------------------------------------------------------------------
@@ -282,15 +299,22 @@ def run(ctx):
 # ---------------------------------------------------------------------------
 def fresh(node):
     """a private copy of a function node (no parent links)"""
-    return ast.parse(ast.unparse(node)).body[0]
+    return clone(node)
+
+
+_OP_TYPES = {"drop*2": ast.BinOp, "add->sub": ast.BinOp, "const+1": ast.Constant, "ret-empty": ast.Return, "negate-if": ast.If,
+             "swap-tuple": ast.Tuple, "del-call-stmt": ast.Expr, "del-subscript-store": ast.Assign, "and->or": ast.BoolOp,
+             "aug->sub": ast.AugAssign, "del-attr-assign": ast.Assign, "end<->start": ast.Attribute}
 
 
 def mutants_of(fn_node, ops, site_ok=None):
     """yield (description, mutated copy) for the generic operators named in ops"""
     base_src = ast.unparse(fn_node)
-    n_nodes = len(list(ast.walk(fresh(fn_node))))
-    for i in range(n_nodes):
+    shape = list(ast.walk(fn_node))
+    for i in range(len(shape)):
         for opn in ops:
+            if not isinstance(shape[i], _OP_TYPES[opn]):
+                continue
             t = fresh(fn_node)
             nodes = list(ast.walk(t))
             n = nodes[i]
@@ -348,6 +372,9 @@ def mutants_of(fn_node, ops, site_ok=None):
             elif opn == "del-subscript-store" and isinstance(n, ast.Assign) and any(isinstance(t_, ast.Subscript) for t_ in n.targets):
                 desc = "delete the statement %s" % ast.unparse(n)[:60]
                 replace(n, ast.Pass())
+            elif opn == "and->or" and isinstance(n, ast.BoolOp) and isinstance(n.op, ast.And):
+                desc = "and -> or in %s" % ast.unparse(n)[:60]
+                n.op = ast.Or()
             elif opn == "aug->sub" and isinstance(n, ast.AugAssign) and isinstance(n.op, ast.Add):
                 desc = "+= -> -= in %s" % ast.unparse(n)
                 n.op = ast.Sub()
@@ -398,6 +425,32 @@ class patched:
         self.func.node = self.old
 
 
+def canary(ctx, label, func, core, mutant_ops, site_ok=None, pick=0):
+    """quick-tier positive control (stands in for a fixture): one canonical breaking edit applied to the
+    parsed function in memory must make the rule core fire, otherwise the rule has gone blind."""
+    base = Sink()
+    core(base)
+    gen = mutants_of(func.node, mutant_ops, site_ok)
+    desc = node = None
+    for i, (d, n) in enumerate(gen):
+        desc, node = d, n
+        if i >= pick:
+            break
+    if node is None:
+        raise AnalysisError("positive control for %s: no mutation site found in %s" % (label, func.qualname))
+    s = Sink()
+    try:
+        with patched(func, node):
+            core(s)
+        fired = bool(set(s.failed) - set(base.failed))
+    except AnalysisError:
+        fired = True
+    if not fired:
+        raise AnalysisError("rule lost its teeth: positive control '%s' on %s is not detected" % (desc, func.qualname))
+    ctx.ob("positive-control", label, True, "in-memory edit '%s' of %s is detected" % (desc, func.qualname))
+    ctx.count("positive_controls")
+
+
 def adequacy(ctx, label, func, core, mutant_ops, benign, allow_survivors=(), site_ok=None):
     """core(sink) runs the rule core; it must fire on every mutant of `func` and stay at the
     baseline on every benign variant."""
@@ -446,7 +499,7 @@ def adequacy(ctx, label, func, core, mutant_ops, benign, allow_survivors=(), sit
     ctx.ob("mutation-adequacy", label, True, "%d/%d mutants detected, %d/%d benign variants silent" % (killed, total, silent, btotal))
 
 
-def _mutation_adequacy(ctx, repo, folder, dx, ma, dn, bb_cls):
+def _mutation_adequacy(ctx, repo, folder, dx, ma, dn, bb_cls, ma_cls, de, basic):
     flow_ops = sorted(dalvik.FLOW_OPS) + [0x00, 0x26, 0x2D, 0x3E, 0x12]
     opvars = {t.id for n in ast.walk(dn.node) if isinstance(n, ast.Assign) and isinstance(n.value, ast.Call)
               and isinstance(n.value.func, ast.Attribute) and n.value.func.attr == "get_op_value"
@@ -477,3 +530,19 @@ def _mutation_adequacy(ctx, repo, folder, dx, ma, dn, bb_cls):
              allow_survivors=())
     sf = bb_cls.lookup("set_fathers")
     adequacy(ctx, "set_fathers", sf, lambda s: check_set_childs(s, repo, folder, bb_cls), ["del-call-stmt"], [])
+
+    cbb = ma_cls.lookup("_create_basic_block")
+    idxs = [i for i, st in enumerate(cbb.node.body) if any(isinstance(x, ast.Attribute) and x.attr == "set_childs" for x in ast.walk(st))]
+
+    def cs_site(opn, n, par):
+        # only the statement(s) that hand successors to set_childs; the rest of the function is C10's
+        top = n
+        while par.get(id(top)) is not None and not isinstance(par[id(top)], ast.FunctionDef):
+            top = par[id(top)]
+        fn = par.get(id(top))
+        return isinstance(fn, ast.FunctionDef) and top in fn.body and fn.body.index(top) in idxs
+
+    adequacy(ctx, "_create_basic_block (set_childs call site)", cbb,
+             lambda s: check_callsite(s, repo, folder, ma_cls, dn, de, basic, [(0x00, 0x32), (0x32, 0x00)]),
+             ["add->sub", "del-call-stmt", "end<->start", "const+1"],
+             [("rename h", rename_local(cbb.node, "h", "succ_of"))], site_ok=cs_site)
